@@ -196,8 +196,31 @@ fn differential(rec: &mut Rec, ctx: &Ctx, g: u64, _rng: &mut ChaCha20Rng) {
   }
 }
 
+/// very long shares: element counts around a MiB of y-coordinates
+fn giant(rec: &mut Rec, _ctx: &Ctx, idx: u64, rng: &mut ChaCha20Rng) {
+  let ny = [43_689usize, 43_690, 43_691, 50_000, 65_535, 65_536, 65_537, 100_000][(idx % 8) as usize];
+  let sh = hostile::model_shark(rng, ny);
+  let enc = sh.encode();
+  rec.evals += 1;
+  rec.ev("giant_share_roundtrip");
+  rec.case(&("giant", ny));
+  let c = hostile::Case::one(Target::SharksTryFrom, format!("giant:{}", ny), enc.clone());
+  differential_case(rec, &c);
+  // out-of-range element near the end must be refused
+  let mut bad = enc.clone();
+  let off = 24 * (ny - rng.gen_range(0..3));
+  bad[off..off + 24].copy_from_slice(&[0xff; 24]);
+  differential_case(rec, &hostile::Case::one(Target::SharksTryFrom, format!("giant-bad-tail:{}", ny), bad));
+  // the same share inside an adss share
+  if idx % 2 == 0 {
+    let a = crate::layout::AdssShare { t: 3, s: sh, c: vec![1, 2, 3], d: vec![4, 5], j: [7u8; 64] };
+    differential_case(rec, &hostile::Case::one(Target::AdssFromBytes, format!("giant-adss:{}", ny), a.encode()));
+  }
+}
+
 pub fn run(ctx: &Ctx) -> Rec {
   let mut rec = par_run(ctx, "honest", ctx.n(3000, 100_000), |rec, i, rng| honest(rec, ctx, i, rng));
   rec.merge(par_run(ctx, "differential", ctx.n(480, 16000), |rec, i, rng| differential(rec, ctx, i, rng)));
+  rec.merge(par_run(ctx, "giant", ctx.n(8, 64), |rec, i, rng| giant(rec, ctx, i, rng)));
   rec
 }
